@@ -88,9 +88,9 @@ Section EncInv.
     I (wset st (node_col t) x').
   Hypothesis Pre_child : forall t ch st, In t (tree_nodes root) -> In ch (tree_children t) ->
     tree_col ch <> None -> Pre t st -> Ne t st -> Pre ch st.
-  Hypothesis Ne_bits : forall t st b, is_bit_col t = true -> b <> [] -> Ne t (add_bits st (node_col t) b).
-  Hypothesis Ne_bytes : forall t st b, is_bit_col t = false -> b <> [] -> Ne t (add_bytes st (node_col t) b).
-  Hypothesis Ne_arr : forall t st n, is_bit_col t = true -> P n ->
+  Hypothesis Ne_bits : forall t st b, tree_col t <> None -> is_bit_col t = true -> b <> [] -> Ne t (add_bits st (node_col t) b).
+  Hypothesis Ne_bytes : forall t st b, tree_col t <> None -> is_bit_col t = false -> b <> [] -> Ne t (add_bytes st (node_col t) b).
+  Hypothesis Ne_arr : forall t st n, tree_col t <> None -> is_bit_col t = true -> P n ->
     Ne t (add_bits st (node_col t) (uvc_write_bits (N.of_nat n))).
   Hypothesis Ne_struct : forall c sid d fc opts fts st mask present,
     In (EStruct c sid false d fc opts fts) (tree_nodes root) -> fts <> [] ->
@@ -284,40 +284,40 @@ Section EncInv.
       destruct a; try (destruct oneof; [|destruct d]; apply I_wfail; exact Hi).
       + (* WStruct *)
         destruct oneof; [apply I_wfail; exact Hi|]. destruct d; [apply I_wfail; exact Hi|].
-        unfold t at 2. rewrite enc_eq_struct. fold t. unfold enc_body.
+        unfold t. rewrite enc_eq_struct. fold t. unfold enc_body.
         match goal with |- context [add_bits st c ?b] => set (bs := b) end.
         pose proof (mono_add_bits st c bs) as M.
         assert (Hi1 : I (add_bits st c bs)) by (apply (I_add_bits t); auto).
-        destruct fts as [|ft0 fts0] eqn:Efts.
-        { destruct fields; exact Hi1. }
-        rewrite <- Efts in *.
+        assert (Efts : fts = [] \/ fts <> []) by (destruct fts; [left; reflexivity|right; discriminate]).
+        destruct Efts as [Efts|Efts].
+        { rewrite Efts. destruct fields; exact Hi1. }
         apply (fields_inv_n n IHn _ t); auto.
         * apply fields_pack; [cbn [height] in Hh; lia|exact Ha].
         * unfold t. cbn [tree_children]. apply incl_refl.
         * eapply Pre_mono; eassumption.
-        * apply Ne_struct; [exact Ht|rewrite Efts; discriminate].
+        * apply Ne_struct; [exact Ht|exact Efts].
       + (* WDictRef *)
         destruct oneof; [apply I_wfail; exact Hi|]. destruct d; [|apply I_wfail; exact Hi].
-        unfold t at 2. rewrite enc_eq_dictref. apply (I_add_bits t); auto.
+        unfold t. rewrite enc_eq_dictref. apply (I_add_bits t); auto.
       + (* WDictFull *)
         destruct oneof; [apply I_wfail; exact Hi|]. destruct d; [|apply I_wfail; exact Hi].
         destruct a; try (apply I_wfail; exact Hi).
-        unfold t at 2. rewrite enc_eq_dictfull. fold t. cbv zeta. apply I_cols. unfold enc_body.
+        unfold t. rewrite enc_eq_dictfull. fold t. cbv zeta. apply I_cols. unfold enc_body.
         pose proof (mono_add_bits st c [true]) as M1.
         assert (Hi1 : I (add_bits st c [true])) by (apply (I_add_bits t); auto).
-        assert (Hne1 : Ne t (add_bits st c [true])) by (apply (Ne_bits t); [reflexivity|discriminate]).
+        assert (Hne1 : Ne t (add_bits st c [true])) by (apply (Ne_bits t); [discriminate|reflexivity|discriminate]).
         match goal with |- context [add_bits (add_bits st c [true]) c ?b] => set (bs := b) end.
         pose proof (mono_add_bits (add_bits st c [true]) c bs) as M2.
         assert (M : mono st (add_bits (add_bits st c [true]) c bs)) by (eapply mono_trans; eassumption).
         apply (fields_inv_n n IHn _ t); auto.
         * apply fields_pack; [cbn [height] in Hh; lia|exact Ha].
         * unfold t. cbn [tree_children]. apply incl_refl.
-        * eapply Pre_mono; eassumption.
-        * eapply Ne_mono; eassumption.
-        * apply (I_add_bits t); auto. eapply Pre_mono; eassumption.
+        * exact (Pre_mono _ _ _ M Hp).
+        * exact (Ne_mono _ _ _ M2 Hne1).
+        * apply (I_add_bits t); auto. exact (Pre_mono _ _ _ M1 Hp).
       + (* WOneof *)
         destruct oneof; [|destruct d; apply I_wfail; exact Hi].
-        unfold t at 2. rewrite enc_eq_oneof. fold t. cbv zeta.
+        unfold t. rewrite enc_eq_oneof. fold t. cbv zeta.
         match goal with |- context [add_bits st c ?b] => set (bs := b) end.
         pose proof (mono_add_bits st c bs) as M.
         assert (Hi1 : I (add_bits st c bs)) by (apply (I_add_bits t); auto).
@@ -326,13 +326,13 @@ Section EncInv.
         * cbn [height] in Hh. lia.
         * apply (resolve_callable _ t); auto.
           -- eapply Pre_mono; eassumption.
-          -- apply (Ne_bits t); [reflexivity|]. apply bits_of_N_nonnil, oneof_bits_pos.
+          -- apply (Ne_bits t); [discriminate|reflexivity|]. apply bits_of_N_nonnil, oneof_bits_pos.
           -- unfold t. cbn [tree_children].
              destruct (nth_in_or_default (N.to_nat (tag - 1)) fts EBad) as [Hin|Hd]; [left; exact Hin|right; exact Hd].
     - destruct Hcall as [Hc|[Ht Hp]]; [discriminate|].
       set (t := EArr c k et) in *.
       destruct a; try (apply I_wfail; exact Hi).
-      unfold t at 2. rewrite enc_eq_arr. fold t.
+      unfold t. rewrite enc_eq_arr. fold t.
       match goal with |- context [add_bits st c ?b] => set (bs := b) end.
       pose proof (mono_add_bits st c bs) as M. cbn [arrs_P] in Ha. destruct Ha as [HP Ha].
       apply (elems_inv_n n IHn _ t); auto.
@@ -340,12 +340,12 @@ Section EncInv.
       + left. reflexivity.
       + apply env_ok_push; [eapply env_ok_mono; eassumption|exact Ht|eapply Pre_mono; eassumption].
       + eapply Pre_mono; eassumption.
-      + apply (Ne_arr t); [reflexivity|exact HP].
+      + apply (Ne_arr t); [discriminate|reflexivity|exact HP].
       + apply (I_add_bits t); auto.
     - destruct Hcall as [Hc|[Ht Hp]]; [discriminate|].
       set (t := EMap c mid kt vt) in *.
       destruct a; try (apply I_wfail; exact Hi).
-      + unfold t at 2. rewrite enc_eq_mapfull. fold t.
+      + unfold t. rewrite enc_eq_mapfull. fold t.
         match goal with |- context [add_bytes st c ?b] => set (bs := b) end.
         pose proof (mono_add_bytes st c bs) as M.
         apply (kvs_inv_n n IHn _ t); auto.
@@ -354,9 +354,9 @@ Section EncInv.
         * right. left. reflexivity.
         * apply env_ok_push; [eapply env_ok_mono; eassumption|exact Ht|eapply Pre_mono; eassumption].
         * eapply Pre_mono; eassumption.
-        * apply (Ne_bytes t); [reflexivity|apply leb_enc_nonnil].
+        * apply (Ne_bytes t); [discriminate|reflexivity|apply leb_enc_nonnil].
         * apply (I_add_bytes t); auto.
-      + unfold t at 2. rewrite enc_eq_mapvals. fold t.
+      + unfold t. rewrite enc_eq_mapvals. fold t.
         match goal with |- context [add_bytes st c ?b] => set (bs := b) end.
         pose proof (mono_add_bytes st c bs) as M.
         apply (elems_inv_n n IHn _ t); auto.
@@ -364,7 +364,7 @@ Section EncInv.
         * right. left. reflexivity.
         * apply env_ok_push; [eapply env_ok_mono; eassumption|exact Ht|eapply Pre_mono; eassumption].
         * eapply Pre_mono; eassumption.
-        * apply (Ne_bytes t); [reflexivity|apply leb_enc_nonnil].
+        * apply (Ne_bytes t); [discriminate|reflexivity|apply leb_enc_nonnil].
         * apply (I_add_bytes t); auto.
     - destruct a; apply I_wfail; exact Hi.
     - destruct a; apply I_wfail; exact Hi.
@@ -374,3 +374,482 @@ Section EncInv.
     env_ok env st -> callable t st -> I st -> I (enc env t a st).
   Proof. intros a env t st. apply (enc_inv_n (S (height a))). lia. Qed.
 End EncInv.
+
+(* ------------------------------------------------------------------ instances *)
+Lemma arrs_P_True_n : forall n a, (height a < n)%nat -> arrs_P (fun _ => True) a.
+Proof.
+  induction n as [|n IH]; intros a Hh; [lia|].
+  destruct a; cbn [arrs_P]; try exact Logic.I; cbn [height] in Hh.
+  - induction fields as [|f fs IHf]; cbn [fold_right] in *; [exact Logic.I|].
+    split; [destruct f; [apply IH; lia|exact Logic.I]|apply IHf; lia].
+  - apply IH. lia.
+  - destruct alt; [apply IH; lia|exact Logic.I].
+  - split; [exact Logic.I|]. induction elems as [|x l IHl]; cbn [fold_right] in *; [exact Logic.I|].
+    split; [apply IH; lia|apply IHl; lia].
+  - induction kvs as [|x l IHl]; cbn [fold_right] in *; [exact Logic.I|].
+    split; [split; apply IH; lia|apply IHl; lia].
+  - induction vals as [|x l IHl]; cbn [fold_right] in *; [exact Logic.I|].
+    split; [apply IH; lia|apply IHl; lia].
+Qed.
+
+Lemma arrs_P_True : forall a, arrs_P (fun _ => True) a.
+Proof. intros a. apply (arrs_P_True_n (S (height a))). lia. Qed.
+
+Lemma node_col_in : forall root t, In t (tree_nodes root) -> In (node_col t) (tree_cols root).
+Proof. intros root t H. rewrite tree_cols_nodes. apply in_map. exact H. Qed.
+
+(* 1. nothing outside the tree is touched *)
+Theorem enc_outside_default : forall root a st,
+  outside_default st root -> outside_default (enc [] root a st) root.
+Proof.
+  intros root a st H.
+  apply (enc_inv root (fun st => outside_default st root) (fun _ _ => True) (fun _ _ => True) (fun _ => True));
+    try (intros; exact Logic.I); [| | | | |exact H].
+  - intros s sd tl e Hs c Hc. exact (Hs c Hc).
+  - intros t s x' Ht Hs _ _ c Hc. rewrite wget_wset_other; [exact (Hs c Hc)|].
+    intros ->. apply Hc. apply node_col_in. exact Ht.
+  - apply arrs_P_True.
+  - intros k y [].
+  - destruct (tree_col root) as [c0|] eqn:E; [right|left; exact E].
+    split; [apply (tree_nodes_self root c0 E)|exact Logic.I].
+Qed.
+
+(* 2. bits go to bit columns, bytes to byte columns *)
+Theorem enc_kind_ok : forall root a st, NoDup (tree_cols root) ->
+  kind_ok st root -> kind_ok (enc [] root a st) root.
+Proof.
+  intros root a st Hnd H.
+  apply (enc_inv root (fun st => kind_ok st root) (fun _ _ => True) (fun _ _ => True) (fun _ => True));
+    try (intros; exact Logic.I); [| | | | |exact H].
+  - intros s sd tl e Hs x Hx. exact (Hs x Hx).
+  - intros t s x' Ht Hs _ Hshape x Hx.
+    destruct (Pos.eq_dec (node_col x) (node_col t)) as [E|N].
+    + assert (x = t) by (apply (node_unique root); assumption). subst x.
+      rewrite wget_wset_same. specialize (Hs t Ht).
+      destruct (is_bit_col t); destruct Hshape as [_ ->]; exact Hs.
+    + rewrite wget_wset_other by exact N. exact (Hs x Hx).
+  - apply arrs_P_True.
+  - intros k y [].
+  - destruct (tree_col root) as [c0|] eqn:E; [right|left; exact E].
+    split; [apply (tree_nodes_self root c0 E)|exact Logic.I].
+Qed.
+
+(* 3. hereditary emptiness *)
+(* (child, parent) edges between column-bearing nodes *)
+Definition edge (ch t : etree) : list (etree * etree) :=
+  match tree_col ch with Some _ => [(ch, t)] | None => [] end.
+
+Fixpoint parents (t : etree) : list (etree * etree) :=
+  match t with
+  | EStruct _ _ _ _ _ _ fts => flat_map (fun ch => edge ch t ++ parents ch) fts
+  | EArr _ _ e => edge e t ++ parents e
+  | EMap _ _ k v => (edge k t ++ parents k) ++ (edge v t ++ parents v)
+  | _ => []
+  end.
+
+Lemma parents_unfold : forall t,
+  parents t = match tree_col t with
+              | None => []
+              | Some _ => flat_map (fun ch => edge ch t ++ parents ch) (tree_children t)
+              end.
+Proof.
+  destruct t; cbn [parents tree_col tree_children flat_map]; rewrite ?app_nil_r; reflexivity.
+Qed.
+
+Definition edge_col (e : etree * etree) : positive := node_col (fst e).
+
+Lemma parents_cols : forall t,
+  map edge_col (parents t) = match tree_col t with
+                             | None => []
+                             | Some _ => flat_map tree_cols (tree_children t)
+                             end.
+Proof.
+  induction t as [t IH] using etree_children_ind.
+  rewrite parents_unfold. destruct (tree_col t) as [c|] eqn:Hc; [|reflexivity].
+  rewrite map_flat_map. apply flat_map_ext_in. intros ch Hch.
+  rewrite map_app, (IH ch Hch), (tree_cols_unfold ch). unfold edge.
+  destruct (tree_col ch) as [cc|] eqn:Hcc; [|reflexivity].
+  cbn [map app]. unfold edge_col at 1. cbn [fst]. unfold node_col. rewrite Hcc. reflexivity.
+Qed.
+
+Lemma tree_cols_parents : forall t c, tree_col t = Some c -> tree_cols t = c :: map edge_col (parents t).
+Proof. intros t c H. rewrite tree_cols_unfold, parents_cols, H. reflexivity. Qed.
+
+Lemma parents_in : forall root ch p, In (ch, p) (parents root) ->
+  In ch (tree_nodes root) /\ In p (tree_nodes root) /\ In ch (tree_children p) /\ tree_col ch <> None.
+Proof.
+  induction root as [t IH] using etree_children_ind. intros ch p H.
+  rewrite parents_unfold in H. destruct (tree_col t) as [c|] eqn:Hc; [|contradiction].
+  apply in_flat_map in H. destruct H as [x [Hx H]]. apply in_app_or in H. destruct H as [H|H].
+  - unfold edge in H. destruct (tree_col x) as [cx|] eqn:Hcx; [|contradiction].
+    destruct H as [H|[]]. inversion H; subst.
+    split; [|split; [apply (tree_nodes_self p c Hc)|split; [exact Hx|congruence]]].
+    apply (tree_nodes_child p ch); [congruence|exact Hx|apply (tree_nodes_self ch cx Hcx)].
+  - destruct (IH x Hx ch p H) as (H1 & H2 & H3).
+    split; [|split; [|exact H3]]; apply (tree_nodes_child t x); try congruence; assumption.
+Qed.
+
+Lemma parents_edge : forall root t ch, In t (tree_nodes root) -> In ch (tree_children t) ->
+  tree_col ch <> None -> In (ch, t) (parents root).
+Proof.
+  induction root as [r IH] using etree_children_ind. intros t ch Ht Hch Hc.
+  rewrite tree_nodes_unfold in Ht. rewrite parents_unfold.
+  destruct (tree_col r) as [c|] eqn:Hr; [|contradiction].
+  destruct Ht as [<-|Ht].
+  - apply in_flat_map. exists ch. split; [exact Hch|]. apply in_or_app. left.
+    unfold edge. destruct (tree_col ch); [left; reflexivity|congruence].
+  - apply in_flat_map in Ht. destruct Ht as [x [Hx Ht]].
+    apply in_flat_map. exists x. split; [exact Hx|]. apply in_or_app. right.
+    exact (IH x Hx t ch Ht Hch Hc).
+Qed.
+
+Lemma parent_unique : forall root ch p q, NoDup (tree_cols root) ->
+  In (ch, p) (parents root) -> In (ch, q) (parents root) -> p = q.
+Proof.
+  intros root ch p q Hnd Hp Hq.
+  destruct (tree_col root) as [c|] eqn:Hc.
+  2:{ rewrite parents_unfold, Hc in Hp. contradiction. }
+  rewrite (tree_cols_parents root c Hc) in Hnd. inversion Hnd as [|? ? _ Hnd']; subst.
+  assert (E : (ch, p) = (ch, q)) by (apply (NoDup_map_inj edge_col (parents root)); auto).
+  inversion E. reflexivity.
+Qed.
+
+Lemma root_no_parent : forall root p, NoDup (tree_cols root) -> ~ In (root, p) (parents root).
+Proof.
+  intros root p Hnd H.
+  destruct (tree_col root) as [c|] eqn:Hc.
+  2:{ rewrite parents_unfold, Hc in H. contradiction. }
+  rewrite (tree_cols_parents root c Hc) in Hnd. inversion Hnd as [|? ? Hni _]; subst.
+  apply Hni. apply (in_map edge_col) in H. unfold edge_col at 1 in H. cbn [fst] in H.
+  unfold node_col in H. rewrite Hc in H. exact H.
+Qed.
+
+(* upward form of the invariant: a column with data has a parent with data *)
+Definition up_ok (root : etree) (st : wst) : Prop :=
+  forall ch p, In (ch, p) (parents root) -> nonempty st ch -> nonempty st p.
+Definition parents_ne (root : etree) (x : etree) (st : wst) : Prop :=
+  forall p, In (x, p) (parents root) -> nonempty st p.
+
+Lemma up_ok_elision : forall root st, up_ok root st -> elision_ok st root.
+Proof.
+  intros root st H x Hx Hd y Hy.
+  destruct (tree_col y) as [c|] eqn:Hc; [|unfold col_data; rewrite Hc; reflexivity].
+  destruct (col_data st y) eqn:E; [reflexivity|exfalso].
+  assert (Hin : In (y, x) (parents root)) by (apply parents_edge; [exact Hx|exact Hy|congruence]).
+  apply (H y x Hin); [unfold nonempty; rewrite E; discriminate|exact Hd].
+Qed.
+
+(* every struct node that has children writes at least one mask bit *)
+Definition fc_ok (root : etree) : Prop :=
+  forall c sid d fc opts fts, In (EStruct c sid false d fc opts fts) (tree_nodes root) ->
+  fts <> [] -> fc <> 0.
+
+Definition arr_small (n : nat) : Prop := N.of_nat n < two48.
+
+Lemma col_data_wset_other : forall st c x' y, tree_col y <> None -> node_col y <> c ->
+  col_data (wset st c x') y = col_data st y.
+Proof.
+  intros st c x' y Hy N. unfold col_data. unfold node_col in N.
+  destruct (tree_col y) as [cy|]; [|congruence]. rewrite wget_wset_other by exact N. reflexivity.
+Qed.
+
+Lemma nonempty_add_bits : forall t st b, tree_col t <> None -> is_bit_col t = true -> b <> [] ->
+  nonempty (add_bits st (node_col t) b) t.
+Proof.
+  intros t st b Hc Hb Hne. unfold nonempty, col_data, node_col.
+  destruct (tree_col t) as [c|]; [|congruence]. rewrite Hb. unfold add_bits.
+  rewrite wget_wset_same. cbn [wc_bits]. rewrite column_bytes_nil_iff.
+  intros H. apply app_eq_nil in H. tauto.
+Qed.
+
+Lemma nonempty_add_bytes : forall t st b, tree_col t <> None -> is_bit_col t = false -> b <> [] ->
+  nonempty (add_bytes st (node_col t) b) t.
+Proof.
+  intros t st b Hc Hb Hne. unfold nonempty, col_data, node_col.
+  destruct (tree_col t) as [c|]; [|congruence]. rewrite Hb. unfold add_bytes.
+  rewrite wget_wset_same. cbn [wc_bytes]. intros H. apply app_eq_nil in H. tauto.
+Qed.
+
+Theorem enc_up_ok : forall root a st, NoDup (tree_cols root) -> fc_ok root -> arrs_P arr_small a ->
+  up_ok root st -> up_ok root (enc [] root a st).
+Proof.
+  intros root a st Hnd Hfc Ha H.
+  apply (enc_inv root (up_ok root) (parents_ne root) (fun x st => nonempty st x) arr_small);
+    [| | | | | | | | | exact Ha | | | exact H].
+  - intros s sd tl e Hs ch p Hin. exact (Hs ch p Hin).
+  - intros x s s' M Hp p Hin. apply (nonempty_mono s s' p M). exact (Hp p Hin).
+  - intros x s s' M Hn. exact (nonempty_mono s s' x M Hn).
+  - (* own-kind write *)
+    intros t s x' Ht Hs Hp Hshape ch p Hin Hne.
+    assert (M : mono s (wset s (node_col t) x')).
+    { intros c. destruct (Pos.eq_dec c (node_col t)) as [->|N].
+      - rewrite wget_wset_same. destruct (is_bit_col t); destruct Hshape as [[b Hb] He]; rewrite Hb, He;
+          split; eexists; try reflexivity; symmetry; apply app_nil_r.
+      - rewrite wget_wset_other by exact N. split; exists []; symmetry; apply app_nil_r. }
+    destruct (parents_in root ch p Hin) as (Hch & Hpn & _ & Hcc).
+    destruct (Pos.eq_dec (node_col ch) (node_col t)) as [E|N].
+    + assert (ch = t) by (apply (node_unique root); assumption). subst ch.
+      apply (nonempty_mono s _ p M). exact (Hp p Hin).
+    + apply (nonempty_mono s _ p M). apply (Hs ch p Hin).
+      unfold nonempty in *. rewrite col_data_wset_other in Hne; assumption.
+  - (* children *)
+    intros t ch s Ht Hch Hc Hp Hn p Hin.
+    assert (p = t); [|subst; exact Hn].
+    apply (parent_unique root ch); [exact Hnd|exact Hin|apply parents_edge; assumption].
+  - intros t s b Hc Hb Hne. apply nonempty_add_bits; assumption.
+  - intros t s b Hc Hb Hne. apply nonempty_add_bytes; assumption.
+  - intros t s n Hc Hb Hn. apply nonempty_add_bits; try assumption.
+    apply uvc_write_bits_nonnil. exact Hn.
+  - intros c sid d fc opts fts s mask present Ht Hfts.
+    apply (nonempty_add_bits (EStruct c sid false d fc opts fts)); [discriminate|reflexivity|].
+    pose proof (Hfc c sid d fc opts fts Ht Hfts) as Hfc0.
+    intros Hnil. apply app_eq_nil in Hnil. destruct Hnil as [Hnil _].
+    apply (bits_of_N_nonnil (N.to_nat fc) mask); [lia|exact Hnil].
+  - intros k y [].
+  - destruct (tree_col root) as [c0|] eqn:E; [right|left; exact E].
+    split; [apply (tree_nodes_self root c0 E)|].
+    intros p Hin. exfalso. exact (root_no_parent root p Hnd Hin).
+Qed.
+
+(* ------------------------------------------------------------------ a whole frame *)
+Lemma restart_acc_empty : forall fl ws0, acc_empty ws0 -> acc_empty (w_restart fl ws0).
+Proof.
+  intros fl ws0 H c. rewrite wget_restart. destruct (N.testbit fl 2); cbn [wc_bits wc_bytes]; apply H.
+Qed.
+
+Lemma restart_outside_default : forall fl ws0 t, outside_default ws0 t -> outside_default (w_restart fl ws0) t.
+Proof.
+  intros fl ws0 t H c Hc. rewrite wget_restart, (H c Hc). destruct (N.testbit fl 2); reflexivity.
+Qed.
+
+Lemma acc_empty_col_data : forall st x, acc_empty st -> col_data st x = [].
+Proof.
+  intros st x H. unfold col_data. destruct (tree_col x) as [c|]; [|reflexivity].
+  destruct (H c) as [H1 H2]. rewrite H1, H2. destruct (is_bit_col x); reflexivity.
+Qed.
+
+Lemma acc_empty_up_ok : forall root st, acc_empty st -> up_ok root st.
+Proof. intros root st H ch p _ Hne. exfalso. apply Hne. apply acc_empty_col_data. exact H. Qed.
+
+Lemma acc_empty_kind_ok : forall root st, acc_empty st -> kind_ok st root.
+Proof. intros root st H x _. destruct (H (node_col x)). destruct (is_bit_col x); assumption. Qed.
+
+Definition frame_end (t : etree) (fl : N) (ws0 : wst) (recs : list wire) : wst :=
+  fold_left (fun st a => enc [] t a st) recs (w_restart fl ws0).
+
+Lemma frame_encode_end : forall t fl ws0 recs,
+  frame_encode t fl ws0 recs =
+  (w_clear (frame_end t fl ws0 recs),
+   emit_data_frame_content (frame_end t fl ws0 recs) t (N.of_nat (length recs))).
+Proof. reflexivity. Qed.
+
+(* the three side conditions hold for the writer state at the end of every frame *)
+Theorem frame_end_invariants : forall t fl ws0 recs,
+  NoDup (tree_cols t) -> fc_ok t -> Forall (arrs_P arr_small) recs ->
+  acc_empty ws0 -> outside_default ws0 t ->
+  elision_ok (frame_end t fl ws0 recs) t /\ kind_ok (frame_end t fl ws0 recs) t /\
+  outside_default (frame_end t fl ws0 recs) t.
+Proof.
+  intros t fl ws0 recs Hnd Hfc Hrecs Hae Hod. unfold frame_end.
+  assert (H0 : up_ok t (w_restart fl ws0) /\ kind_ok (w_restart fl ws0) t /\ outside_default (w_restart fl ws0) t).
+  { pose proof (restart_acc_empty fl ws0 Hae) as Hae'.
+    split; [apply acc_empty_up_ok; exact Hae'|split; [apply acc_empty_kind_ok; exact Hae'|]].
+    apply restart_outside_default. exact Hod. }
+  revert H0. generalize (w_restart fl ws0) as s.
+  induction Hrecs as [|a l Ha Hl IH]; intros s (H1 & H2 & H3); cbn [fold_left].
+  - split; [apply up_ok_elision; exact H1|split; assumption].
+  - apply IH. split; [apply enc_up_ok; assumption|split; [apply enc_kind_ok; assumption|]].
+    apply enc_outside_default. exact H3.
+Qed.
+
+(* the frame-content round trip for what [frame_encode] emits: the reader's next frame is in
+   [sync] with the writer at the start of the frame, the totals extend every writer state of the
+   frame (WireFactsBase.extends_mono), and the writer state handed to the next frame satisfies
+   the same preconditions *)
+Theorem frame_encode_reader_sync : forall r fl ws0 recs src',
+  let t := Reader.rd_tree r in
+  let st_end := frame_end t fl ws0 recs in
+  Reader.next_frame (Reader.rd_src r) = inr (fl, snd (frame_encode t fl ws0 recs), src') ->
+  frame_content_ok st_end t (N.of_nat (length recs)) ->
+  NoDup (tree_cols t) -> fc_ok t -> Forall (arrs_P arr_small) recs ->
+  carry ws0 (Reader.rd_st r) -> acc_empty ws0 -> outside_default ws0 t ->
+  exists r', Reader.reader_next_frame r = inr r' /\
+    Reader.rd_tree r' = t /\ Reader.rd_src r' = src' /\
+    Reader.rd_left r' = N.of_nat (length recs) /\ Reader.rd_count r' = Reader.rd_count r /\
+    Reader.rd_rec r' = Reader.rd_rec r /\
+    sync (frame_totals st_end t) (w_restart fl ws0) (Reader.rd_st r') /\
+    extends (frame_totals st_end t) st_end /\
+    acc_empty (fst (frame_encode t fl ws0 recs)) /\
+    outside_default (fst (frame_encode t fl ws0 recs)) t.
+Proof.
+  intros r fl ws0 recs src' t st_end Hnf Hok Hnd Hfc Hrecs Hca Hae Hod.
+  destruct (frame_end_invariants t fl ws0 recs Hnd Hfc Hrecs Hae Hod) as (He & Hk & Ho).
+  rewrite frame_encode_end in *. cbn [fst snd] in *. fold st_end in Hnf, He, Hk, Ho |- *.
+  destruct (reader_next_frame_sync r fl _ src' ws0 st_end Hnf Hok Hnd He Hca Hae Hod)
+    as (r' & H1 & H2 & H3 & H4 & H5 & H6 & _ & H8).
+  exists r'. repeat (split; [assumption|]).
+  split; [apply frame_totals_extends; assumption|].
+  split; [apply acc_empty_clear|apply outside_default_clear; exact Ho].
+Qed.
+
+(* ------------------------------------------------------------------ fc_ok of built trees *)
+Lemma fc_ok_children : forall t,
+  (forall c sid d fc opts fts, t = EStruct c sid false d fc opts fts -> fts <> [] -> fc <> 0) ->
+  (forall ch, In ch (tree_children t) -> fc_ok ch) -> fc_ok t.
+Proof.
+  intros t Hself Hch c sid d fc opts fts Hin Hne.
+  rewrite tree_nodes_unfold in Hin. destruct (tree_col t); [|contradiction].
+  destruct Hin as [E|Hin]; [apply (Hself c sid d fc opts fts E Hne)|].
+  apply in_flat_map in Hin. destruct Hin as [ch [H1 H2]]. exact (Hch ch H1 c sid d fc opts fts H2 Hne).
+Qed.
+
+Lemma build_fc_ok : forall sc f stack ty st, fc_ok (fst (build sc f stack ty st)).
+Proof.
+  intros sc. induction f as [|f IH]; intros stack ty st.
+  - cbn [build fst]. intros c sid d fc opts fts [].
+  - cbn [build]. destruct (on_stack stack (key_of ty)).
+    { cbn [fst]. intros c sid d fc opts fts []. }
+    unfold fresh_col.
+    set (st1 := mkIst (Pos.succ (i_next st)) (i_over st) (i_memo st) (i_err st)).
+    destruct ty as [p d|e|s|m].
+    + cbn [fst]. apply fc_ok_children; [intros; discriminate|intros ch []].
+    + pose proof (IH (key_of (TArray e) :: stack) e st1) as H.
+      destruct (build sc f (key_of (TArray e) :: stack) e st1) as [et st2]. cbn [fst] in *.
+      apply fc_ok_children; [intros; discriminate|]. intros ch [<-|[]]. exact H.
+    + destruct (field_count st1 s (N.of_nat (length (s_fields (get_struct sc s))))) as [fc st2].
+      set (st3 := if N.of_nat (length (s_fields (get_struct sc s))) <? fc then set_err st2 else st2).
+      assert (Hfold : forall fl (acc : list etree * istate),
+                let res := fold_left (fun (acc : list etree * istate) (fl : field) =>
+                             let '(l, st) := acc in
+                             let '(ft, st) := build sc f (KStruct s :: stack) (f_type fl) st in (l ++ [ft], st)) fl acc in
+                (forall x, In x (fst acc) -> fc_ok x) -> (forall x, In x (fst res) -> fc_ok x) /\
+                (fl = [] -> fst res = fst acc)).
+      { induction fl as [|x fl IHf]; intros acc; cbn [fold_left]; [intros H; split; [exact H|reflexivity]|].
+        intros Hacc. destruct acc as [l s0].
+        pose proof (IH (KStruct s :: stack) (f_type x) s0) as Hb.
+        destruct (build sc f (KStruct s :: stack) (f_type x) s0) as [ft s1]. cbn [fst] in *.
+        split; [|discriminate]. apply (IHf (l ++ [ft], s1)). cbn [fst].
+        intros y Hy. apply in_app_or in Hy. destruct Hy as [Hy|[<-|[]]]; [exact (Hacc y Hy)|exact Hb]. }
+      match goal with |- context [fold_left ?F ?L ?A] =>
+        specialize (Hfold L A); cbv zeta in Hfold; destruct (fold_left F L A) as [fts st4] end.
+      cbn [fst] in *. destruct Hfold as [Hall Hnil]; [intros x []|].
+      apply fc_ok_children.
+      * intros c0 sid0 d0 fc0 opts0 fts0 E Hne. inversion E; subst. intros ->.
+        apply Hne. apply Hnil. reflexivity.
+      * cbn [tree_children]. exact Hall.
+    + pose proof (IH (KMap m :: stack) (m_key (get_mmap sc m)) st1) as Hk.
+      destruct (build sc f (KMap m :: stack) (m_key (get_mmap sc m)) st1) as [kt st2].
+      pose proof (IH (KMap m :: stack) (m_val (get_mmap sc m)) st2) as Hv.
+      destruct (build sc f (KMap m :: stack) (m_val (get_mmap sc m)) st2) as [vt st3].
+      cbn [fst] in *. apply fc_ok_children; [intros; discriminate|].
+      intros ch [<-|[<-|[]]]; assumption.
+Qed.
+
+Theorem build_root_fc_ok : forall sc root over, fc_ok (fst (build_root sc root over)).
+Proof. intros. unfold build_root. apply build_fc_ok. Qed.
+
+(* ------------------------------------------------------------------ wire_ok bounds the arrays *)
+Section OkArrs.
+  Variable sizes : N -> N.
+  Variable n : nat.
+  Hypothesis IH : forall a env t prev st al, (height a < n)%nat ->
+    wire_ok sizes env t prev a st al = true -> arrs_P arr_small a.
+
+  Lemma ok_fields_arrs : forall env' prev mask present fs i oi fts opts pf st al,
+    Forall (fun f => match f with Some x => (height x < n)%nat | None => True end) fs ->
+    ok_fields sizes env' prev mask present i oi fts opts fs pf st al = true ->
+    fold_right (fun f Q => match f with Some x => arrs_P arr_small x | None => True end /\ Q) True fs.
+  Proof.
+    intros env' prev mask present. induction fs as [|f fs IHfs]; intros i oi fts opts pf st al HF H.
+    - exact Logic.I.
+    - destruct fts as [|ft fts]; [discriminate H|]. destruct opts as [|o opts]; [discriminate H|].
+      cbn [ok_fields] in H. inversion HF as [|? ? Hf HF']; subst. cbn [fold_right].
+      destruct f as [a'|].
+      + rewrite !andb_true_iff in H. destruct H as [[[_ _] Hw] Hgo].
+        split; [exact (IH _ _ _ _ _ _ Hf Hw)|exact (IHfs _ _ _ _ _ _ _ HF' Hgo)].
+      + rewrite andb_true_iff in H. destruct H as [_ Hgo].
+        split; [exact Logic.I|exact (IHfs _ _ _ _ _ _ _ HF' Hgo)].
+  Qed.
+
+  Lemma ok_elems_arrs : forall env' et es pe st al,
+    Forall (fun x => (height x < n)%nat) es ->
+    ok_elems sizes env' et es pe st al = true ->
+    fold_right (fun x Q => arrs_P arr_small x /\ Q) True es.
+  Proof.
+    intros env' et. induction es as [|e es IHes]; intros pe st al HF H; [exact Logic.I|].
+    cbn [ok_elems] in H. inversion HF as [|? ? He HF']; subst. cbn [fold_right].
+    rewrite andb_true_iff in H. destruct H as [Hw Hgo].
+    split; [exact (IH _ _ _ _ _ _ He Hw)|exact (IHes _ _ _ HF' Hgo)].
+  Qed.
+
+  Lemma ok_kvs_arrs : forall env' kt vt l pk st al,
+    Forall (fun kv => (height (fst kv) < n)%nat /\ (height (snd kv) < n)%nat) l ->
+    ok_kvs sizes env' kt vt l pk st al = true ->
+    fold_right (fun kv Q => (arrs_P arr_small (fst kv) /\ arrs_P arr_small (snd kv)) /\ Q) True l.
+  Proof.
+    intros env' kt vt. induction l as [|[k v] l IHl]; intros pk st al HF H; [exact Logic.I|].
+    cbn [ok_kvs] in H. inversion HF as [|? ? [Hk Hv] HF']; subst. cbn [fold_right fst snd] in *.
+    destruct (hd (RNil, RNil) pk) as [pkk pv]. cbv zeta in H.
+    rewrite !andb_true_iff in H. destruct H as [[Hwk Hwv] Hgo].
+    split; [split; [exact (IH _ _ _ _ _ _ Hk Hwk)|exact (IH _ _ _ _ _ _ Hv Hwv)]|].
+    exact (IHl _ _ _ HF' Hgo).
+  Qed.
+End OkArrs.
+
+Lemma wire_ok_arrs_n : forall sizes n a env t prev st al, (height a < n)%nat ->
+  wire_ok sizes env t prev a st al = true -> arrs_P arr_small a.
+Proof.
+  intros sizes. induction n as [|n IHn]; intros a env t prev st al Hh H; [lia|].
+  destruct a; try exact Logic.I; cbn [arrs_P].
+  - (* WStruct *)
+    destruct t as [c p d|c sid oneof d fc opts fts|c k et|c mid kt vt|k|]; try discriminate H.
+    + rewrite ok_eq_prim in H. destruct p; discriminate H.
+    + destruct oneof; [discriminate H|]. destruct d; [discriminate H|].
+      rewrite ok_eq_struct in H. unfold ok_body in H. rewrite !andb_true_iff in H. destruct H as [_ H].
+      apply (ok_fields_arrs sizes n IHn) in H; [exact H|].
+      apply height_fields_lt. cbn [height] in Hh. lia.
+  - (* WDictFull *)
+    destruct t as [c p d|c sid oneof d fc opts fts|c k et|c mid kt vt|k|]; try discriminate H.
+    + rewrite ok_eq_prim in H. destruct p; discriminate H.
+    + destruct oneof; [discriminate H|]. destruct d; [|discriminate H].
+      destruct a; try discriminate H.
+      rewrite ok_eq_dictfull in H. unfold ok_body in H. rewrite !andb_true_iff in H. destruct H as [_ H].
+      cbn [arrs_P].
+      apply (ok_fields_arrs sizes n IHn) in H; [exact H|].
+      apply height_fields_lt. cbn [height] in Hh. lia.
+  - (* WOneof *)
+    destruct alt as [a'|]; [|exact Logic.I].
+    destruct t as [c p d|c sid oneof d fc opts fts|c k et|c mid kt vt|k|]; try discriminate H.
+    + rewrite ok_eq_prim in H. destruct p; discriminate H.
+    + destruct oneof; [|destruct d; discriminate H].
+      rewrite ok_eq_oneof in H. cbv zeta in H. rewrite !andb_true_iff in H. destruct H as [_ [_ H]].
+      apply (IHn _ _ _ _ _ _) in H; [exact H|]. cbn [height] in Hh. lia.
+  - (* WArr *)
+    destruct t as [c p d|c sid oneof d fc opts fts|c k et|c mid kt vt|k|]; try discriminate H.
+    + rewrite ok_eq_prim in H. destruct p; discriminate H.
+    + destruct oneof; [|destruct d]; discriminate H.
+    + rewrite ok_eq_arr in H. cbv zeta in H. rewrite !andb_true_iff in H. destruct H as [[Hn _] H].
+      split.
+      * unfold arr_small, two48. apply N.ltb_lt in Hn. change (2 ^ 40) with 1099511627776 in Hn. lia.
+      * apply (ok_elems_arrs sizes n IHn) in H; [exact H|].
+        apply height_elems_lt. cbn [height] in Hh. lia.
+  - (* WMapFull *)
+    destruct t as [c p d|c sid oneof d fc opts fts|c k et|c mid kt vt|k|]; try discriminate H.
+    + rewrite ok_eq_prim in H. destruct p; discriminate H.
+    + destruct oneof; [|destruct d]; discriminate H.
+    + rewrite ok_eq_mapfull in H. cbv zeta in H. rewrite andb_true_iff in H. destruct H as [_ H].
+      apply (ok_kvs_arrs sizes n IHn) in H; [exact H|].
+      apply height_kvs_lt. cbn [height] in Hh. lia.
+  - (* WMapVals *)
+    destruct t as [c p d|c sid oneof d fc opts fts|c k et|c mid kt vt|k|]; try discriminate H.
+    + rewrite ok_eq_prim in H. destruct p; discriminate H.
+    + destruct oneof; [|destruct d]; discriminate H.
+    + rewrite ok_eq_mapvals in H. cbv zeta in H. rewrite !andb_true_iff in H. destruct H as [_ [_ H]].
+      apply (ok_elems_arrs sizes n IHn) in H; [exact H|].
+      apply height_elems_lt. cbn [height] in Hh. lia.
+Qed.
+
+(* what the record-layer theorem assumes of every record is enough *)
+Theorem wire_ok_arrs : forall sizes a env t prev st al,
+  wire_ok sizes env t prev a st al = true -> arrs_P arr_small a.
+Proof. intros sizes a env t prev st al. apply (wire_ok_arrs_n sizes (S (height a))). lia. Qed.
